@@ -155,7 +155,7 @@ class MakeFreeMixin(ChemistryMixin):
             nonexist_profile = \
                 np.array([g.mixProfile for g in self.active_nonexist])
             if mix_profile is None:
-                return nonexist_profile
+                return nonexist_profile/self.norm_factor
             else:
                 return np.concatenate((mix_profile, nonexist_profile))/self.norm_factor
         else:
@@ -174,13 +174,19 @@ class MakeFreeMixin(ChemistryMixin):
 
         """
         mix_profile = super().inactiveGasMixProfile
-        for g, idx in self.inactive_exist:
-            mix_profile[idx] = g.mixProfile
+        if mix_profile is not None:
+            for g, idx in self.inactive_exist:
+                mix_profile[idx] = g.mixProfile
 
         if len(self.inactive_nonexist) > 0:
             nonexist_profile = np.array([g.mixProfile for g in self.inactive_nonexist])
-            return np.concatenate((mix_profile, nonexist_profile))/self.norm_factor
+            if mix_profile is None:
+                return nonexist_profile/self.norm_factor
+            else:
+                return np.concatenate((mix_profile, nonexist_profile))/self.norm_factor
         else:
+            if mix_profile is None:
+                return None
             return mix_profile/self.norm_factor
 
     def initialize_chemistry(self, nlayers=100, temperature_profile=None,
